@@ -7,6 +7,9 @@ baseline = json.load(open('/root/.vp/BASELINE.json'))['cmd'] if os.path.exists('
 SIM = "deterministic simulation with fault injection (seeded schedules over real olric+memberlist+redcon+go-redis in one synctest bubble)"
 NOTE = "Trusts the simulator seams (simnet, simsync, fake clock) and that the mechanical source rewrite preserves olric's semantics; 1 P per run; sampling."
 claimed = {
+ "C10": dict(level="exploration", design="DESIGN.md §8 C10",
+   text="Seeded search in three modes: MaxKeys (incl. below the partition count) and MaxInuse with LRU eviction - STATS after every Put checks per-partition shares, no Put fails, the fresh key is readable; MaxIdleDuration on the simulated clock - keys touched inside the window stay readable, after a quiet period of window + enough eviction rounds every key reads not-found.",
+   note=NOTE, technique=SIM + "; bound invariants over STATS after every Put, bounded-liveness check on the fake clock"),
  "C20": dict(level="exploration", design="DESIGN.md §8 C20",
    text="Seeded churn workloads (overwrite / delete / ttl expiry) over a fixed key set with tiny tables, short compaction and idle-table intervals, R 1-2; the simulated clock is then advanced until compaction settles and STATS is read from every member: in-use bytes equal the live (plus not-yet-evicted expired) entries on primaries and backups, per-fragment allocation and garbage stay within bounds derived from the 40 % threshold, allocation does not grow while idle.",
    note=NOTE, technique=SIM + "; accounting and bound oracle over STATS after simulated settle time"),
